@@ -185,7 +185,8 @@ CONTRACTS["removeOverlap.removeOverlap"] = {
     "modifies": ["Node.targetPos", "Node.targetPos$set", "Node.currentPos", "list.elems.ref~Node"] + _VAR_FIELDS + _CFIELDS
     + ["list.len.ref~Constraint", "list.elems.ref~Constraint", "Constraint.$lastpos", "Constraint.$lastlist",
        "list.len.ref~Variable", "list.elems.ref~Variable", "Solver.vs", "Solver.cs", "Solver.inactive", "Solver.bs",
-       "Variable.cIn", "Variable.cOut", "list.len.ref~Constraint@adj", "list.elems.ref~Constraint@adj", "Variable.$vidx"]
+       "Variable.cIn", "Variable.cOut", "list.len.ref~Constraint@cin", "list.elems.ref~Constraint@cin", "list.len.ref~Constraint@cout", "list.elems.ref~Constraint@cout",
+       "Constraint.$ipos", "Constraint.$opos", "Variable.$vidx"]
     + V.RESTRUCT + ["Blocks.vs", "Constraint.lm", "Constraint.lm$set"],
     "loops": {
         0: {"modifies": ["Node.targetPos", "Node.targetPos$set"], "locals": {"node": "ref:Node"},
